@@ -122,6 +122,8 @@ def replay(rec, case):
     if i.get("loc_points"):
         # same pre-state as in the exploration (calls run alone, call 0 traced), and the schedule a few times in a row:
         # single-slot memos make the outcome depend on which call ran last
+        for d in failing_prelude(i["calls"][0].get("cc", "")):
+            make_call(d)()
         expected = [alone(d)[0] for d in i["calls"]]
         sched.trace_locations(make_call(i["calls"][0]), repo_root())
         for _ in range(4):
@@ -405,6 +407,28 @@ def first_use_pairs(rng):
     return out
 
 
+def failing_prelude(cc):
+    """Calls that fail in every documented way (state left behind by a failed call must not disturb later concurrent calls):
+    invalid texts, over-long component, unlisted bank code, random draw with unsatisfiable pins (overflow error)."""
+    o = oracle()
+    out = [{"op": "iban", "text": "DE00123"}, {"op": "bic", "text": "GENODEM1GL"}, {"op": "from_bank_code", "cc": cc or "DE", "code": "?"},
+           {"op": "generate", "cc": cc or "DE", "bank_code": "9" * 40, "account_code": "1"}]
+    if cc and o.positions(cc).get("account_code"):
+        a, e = o.positions(cc)["account_code"]
+        out.append({"op": "random", "cc": cc, "seed": 7, "use_registry": False, "pins": {"account_code": "!" * (e - a)}})
+        out.append({"op": "random", "cc": cc, "seed": 8, "use_registry": True, "cls": "BBAN", "pins": {"account_code": "-" * (e - a)}})
+    return out
+
+
+def draw_pairs(rng):
+    """two seeded draws for the same country (they share whatever generation helpers the library keeps)"""
+    out = []
+    for cc in rng.sample(["NO", "ES", "DE", "GB", "FR", "PL", "IT", "BE", "NL", "SI"], 3):
+        out.append([{"op": "random", "cc": cc, "seed": rng.randrange(1000), "use_registry": rng.random() < 0.5},
+                    {"op": "random", "cc": cc, "seed": rng.randrange(1000), "use_registry": rng.random() < 0.5}])
+    return out
+
+
 def level_pairs(rng):
     """IBAN-level pairs (no national algorithm needed): typo pairs, assembling vs parsing, generation vs parsing."""
     g, o = gen(), oracle()
@@ -454,11 +478,17 @@ def shard_locations(arg):
     rec = Rec()
     start_budget(tier)
     state()
-    pairs = level_pairs(rng)
+    pairs = level_pairs(rng) + draw_pairs(rng)
     if tier != "quick":
-        pairs += level_pairs(rng) + level_pairs(rng)
+        pairs += level_pairs(rng) + level_pairs(rng) + draw_pairs(rng)
         pairs += [pair_for_method(rng, m) for m in rng.sample(state()["impl"], 6)]
     for descs in pairs:
+        if out_of_budget(rec):
+            break
+        # failed calls first (for the country the pair is about, if any)
+        for d in failing_prelude(descs[0].get("cc", "")):
+            make_call(d)()
+        rec.classes["failing-prelude"] += 1
         for order in (descs, descs[::-1]):
             n = enumerate_locations_warm(rec, order, "locations-warm")
             rec.classes["loc-warm-schedules"] += n
@@ -685,5 +715,5 @@ def run(ctx):
     ctx.pmap(shard_national, [(cc, ctx.seed, ctx.tier) for cc in NATIONAL])
     ctx.pmap(shard_mixed, [(i, ctx.seed, ctx.tier) for i in range(16 if ctx.quick else 32)])
     ctx.hyp_parallel(strategy, hyp_body, ctx.pick(640, 12000), name="C14-hyp")
-    ctx.require_classes("burst-while-paused-schedules", "loc-warm-schedules", "loc-cold-schedules", "loc-cold-pair", "mixed", "hyp", "random-2-threads", "random-3-threads", "random-national",
+    ctx.require_classes("failing-prelude", "burst-while-paused-schedules", "loc-warm-schedules", "loc-cold-schedules", "loc-cold-pair", "mixed", "hyp", "random-2-threads", "random-3-threads", "random-national",
                         *[f"enum-{m}" for m in st["impl"]], *[f"enum-national-{cc}" for cc in NATIONAL])
